@@ -256,6 +256,34 @@ func buildUpdate(b *bed.Bed, u *bed.User, o Op) (imap.Update, error) {
 			})
 		}
 
+		for i, marker := range o.Known {
+			lit := literalOf(marker)
+
+			parsed, err := imap.NewParsedMessage(lit)
+			if err != nil {
+				return nil, err
+			}
+
+			boxes, err := remoteBoxes(b, u, o.KnownBoxes[i])
+			if err != nil {
+				return nil, err
+			}
+
+			known := &imap.MessageCreated{
+				Message:       imap.Message{ID: imap.MessageID(o.KnownRemoteIDs[i]), Flags: flags.Clone(), Date: fixedDate},
+				Literal:       lit,
+				MailboxIDs:    boxes,
+				ParsedMessage: parsed,
+			}
+
+			// the first known one in front of the new ones, further ones behind
+			if i == 0 {
+				ms = append([]*imap.MessageCreated{known}, ms...)
+			} else {
+				ms = append(ms, known)
+			}
+		}
+
 		return imap.NewMessagesCreated(false, ms...), nil
 
 	case "MessageUpdated":
@@ -835,6 +863,29 @@ func checkStart(o *Obs) error {
 	for _, f := range o.Files {
 		if !o.DBAll[f] {
 			return fmt.Errorf("left-over: store file %s belongs to no message of the database (files %v)", f, o.Files)
+		}
+	}
+
+	return nil
+}
+
+// checkRowsHaveFiles: the bytes of every message that is not marked for deletion are in the store (read from the disk
+// before any FETCH of the observation: a FETCH would download a missing literal from the connector again and so hide
+// that the server no longer had it).
+func checkRowsHaveFiles(o *Obs) error {
+	have := map[string]bool{}
+	for _, f := range o.Files {
+		have[f] = true
+	}
+
+	marked := map[string]bool{}
+	for _, id := range o.DBMarked {
+		marked[id] = true
+	}
+
+	for id := range o.DBAll {
+		if !marked[id] && !have[id] {
+			return fmt.Errorf("message bytes lost: the message row %s has no file in the store (%d rows, %d files)", id, len(o.DBAll), len(o.Files))
 		}
 	}
 
